@@ -392,6 +392,37 @@ func c13Registry(c *Ctx) {
 		return
 	}
 	c.fn(reg)
+	// a registry kept as a package-level table: return table[name]
+	walkNoLit(reg.Body, func(q ast.Node) bool {
+		r, ok := q.(*ast.ReturnStmt)
+		if !ok || len(r.Results) != 1 {
+			return true
+		}
+		ix, ok := unparen(r.Results[0]).(*ast.IndexExpr)
+		if !ok {
+			return true
+		}
+		id := identOf(ix.X)
+		pid := identOf(ix.Index)
+		if id == nil || pid == nil || info.Uses[pid] != types.Object(reg.Sig().Params().At(0)) {
+			return true
+		}
+		lit, why := readOnlyTable(w, mp, info.Uses[id])
+		if lit == nil {
+			c.ob("C13.R3", reg.Name+"/table", w.Pos(r.Pos()), false, "the processor table "+id.Name+" is not a read-only package-level map literal: "+why)
+			return true
+		}
+		for _, el := range lit.Elts {
+			kv, ok := el.(*ast.KeyValueExpr)
+			if !ok {
+				continue
+			}
+			if tv, ok := info.Types[kv.Key]; ok && tv.Value != nil && tv.Value.Kind() == constant.String {
+				names[constant.StringVal(tv.Value)] = exprStr(kv.Value)
+			}
+		}
+		return true
+	})
 	walkNoLit(reg.Body, func(q ast.Node) bool {
 		cc, ok := q.(*ast.CaseClause)
 		if !ok {
@@ -752,6 +783,9 @@ func c13Position(c *Ctx) {
 var evalLocalDefs = map[types.Object]ast.Expr{}
 
 // evalInt evaluates a pure integer/boolean expression over one integer variable (single-assignment locals are expanded).
+// evalVarKey: when the quantity the guards range over is not a local but an expression (value.IntegerValue), its text.
+var evalVarKey string
+
 func evalIntExpr(info *types.Info, e ast.Expr, v types.Object, n int64) (int64, bool, bool) {
 	// returns (int value, bool value, ok) — bool value meaningful for boolean expressions
 	e = unparen(e)
@@ -764,9 +798,12 @@ func evalIntExpr(info *types.Info, e ast.Expr, v types.Object, n int64) (int64, 
 			return 0, constant.BoolVal(tv.Value), true
 		}
 	}
+	if evalVarKey != "" && exprStr(e) == evalVarKey {
+		return n, false, true
+	}
 	switch x := e.(type) {
 	case *ast.Ident:
-		if info.Uses[x] == v {
+		if v != nil && info.Uses[x] == v {
 			return n, false, true
 		}
 		if def := evalLocalDefs[info.Uses[x]]; def != nil {
@@ -845,22 +882,40 @@ func c13Ordinal(c *Ctx) {
 			continue
 		}
 		walkNoLit(f.Body, func(q ast.Node) bool {
-			sw, ok := q.(*ast.SwitchStmt)
-			if !ok || sw.Tag != nil || len(sw.Body.List) < 3 {
+			// the category selection: a tagless switch or an if / else-if chain with at least three guarded arms
+			var sw ast.Node
+			var branchArms []arm
+			switch y := q.(type) {
+			case *ast.SwitchStmt:
+				if y.Tag == nil {
+					sw, branchArms = y, armsOfSwitch(y)
+				}
+			case *ast.IfStmt:
+				if isChainHead(w, y) {
+					sw, branchArms = y, armsOfIfChain(y)
+				}
+			}
+			if sw == nil || len(branchArms) < 3 {
 				return true
 			}
-			// all cases assign one variable a constant; conditions over one int variable
+			// all arms assign one variable a constant; conditions over one integer quantity (the operand of %)
 			var nObj types.Object
+			evalVarKey = ""
 			ast.Inspect(f.Body, func(n ast.Node) bool {
 				if b, ok := n.(*ast.BinaryExpr); ok && b.Op == token.REM {
 					if id := identOf(b.X); id != nil {
 						nObj = info.Uses[id]
+					} else if evalVarKey == "" {
+						evalVarKey = exprStr(b.X)
 					}
 				}
 				return true
 			})
-			if nObj == nil {
+			if nObj == nil && evalVarKey == "" {
 				return true
+			}
+			if nObj != nil {
+				evalVarKey = ""
 			}
 			// single-assignment locals defined from call-free expressions
 			ef := w.ent(f)
@@ -876,21 +931,20 @@ func c13Ordinal(c *Ctx) {
 					}
 				}
 			}
-			type arm struct {
+			type catArm struct {
 				cond ast.Expr
 				cat  string
 			}
-			var arms []arm
-			for _, cl := range sw.Body.List {
-				cc := cl.(*ast.CaseClause)
-				if len(cc.List) != 1 || len(cc.Body) != 1 {
+			var arms []catArm
+			for _, ba := range branchArms {
+				if len(ba.conds) != 1 || len(ba.body) != 1 {
 					return true
 				}
-				as, ok := cc.Body[0].(*ast.AssignStmt)
+				as, ok := ba.body[0].(*ast.AssignStmt)
 				if !ok || len(as.Rhs) != 1 {
 					return true
 				}
-				arms = append(arms, arm{cc.List[0], constVal(as.Rhs[0])})
+				arms = append(arms, catArm{ba.conds[0], constVal(as.Rhs[0])})
 			}
 			// the default category: the value assigned before the switch
 			def := "other"
